@@ -8,18 +8,30 @@ ID = 'C06'
 PROPS_V = 'C06/Props.v'
 LEVEL = 'proof'
 TRUSTED = [
-    'translate/c06.py + translate/pyexpr.py: Python ast -> Gallina for the shift/mask expressions, range-check idioms, run2d formulas, mjd offsets',
-    'hand-written glue model C06/Model.v (scalar/array promotion, shape checks, line/index exclusivity) -- tied by correspondence only',
-    'Lib/NumpyInt.v: hand-written model of NumPy fixed-width integer arithmetic (astype wraps, array << int and array - int keep the '
-    'array type and wrap, a literal that does not fit raises OverflowError, comparisons with Python ints are exact; mixed-type | is '
-    'NOT modelled) -- tied to NumPy by the typed correspondence cases (every argument a 1-element array of its own type, int8..uint64); '
-    'the typed theorems cover the all-array calling convention only',
-    'str->int conversion of ID strings, byte order and strides of the unwrap inputs (exercised, not modelled)',
+    'translate/c06.py + translate/pyexpr.py: Python ast -> Gallina for the shift/mask expressions, range-check idioms, run2d formulas, '
+    'mjd offsets and (round 5) the signature defaults / None replacements / broadcast constants / scalar promotions / shape-check lists of '
+    'sdss_objid, line-index exclusivity and shape checks of sdss_specobjid, the run2d tag branch (regex -> literal/digit pieces, '
+    're.match vs re.fullmatch, N/M/P range check, dtype), the record dtypes, input-type dispatch, typed field expressions and the '
+    'tag format string of unwrap_objid / unwrap_specobjid; fail-closed (unrecognised shape => committed Generated file + correspondence only)',
+    'hand-written glue model C06/Model.v + the call front-ends of C06/Unwrap.v (zip of promoted columns, order: shape checks before range '
+    'checks; all ValueError) -- proved equal to the row-wise documented behaviour for every mix of scalar/array arguments '
+    '(C06_objid_model_total, C06_specobjid_model_total, C06_objid_call_defaults) and tied to the code by correspondence',
+    'Lib/NumpyInt.v: hand-written model of NumPy fixed-width integer arithmetic (astype and record-field stores wrap; array << int, >> int, '
+    '& int, + int, - int, // int, % int keep the array type; a literal that does not fit raises OverflowError; comparisons with Python '
+    'ints are exact; mixed-type | is NOT modelled) -- tied to NumPy by the typed correspondence cases (every argument a 1-element array of '
+    'its own type, int8..uint64; every unwrapped ID through the typed record model)',
+    'C06/Strings.v: hand-written byte-level models of int(str) (= NumPy str/bytes -> integer astype per element), str.format with {i:d} '
+    'fields and re.match/re.fullmatch for literal + (\\d+) patterns, ASCII only -- tied by the string correspondence families '
+    '(signs, blanks, underscores, leading zeros, malformed, beyond 64 bits; str and bytes arrays)',
+    'byte order and strides of the unwrap inputs (exercised, not modelled)',
     'Coq stdlib ZArith, Lia (theorems closed under the global context)',
 ]
 ASSUMPTIONS = [
     'array-valued run2d strings and non-int scalar types (numpy scalars, bools) are outside the modelled calling conventions',
-    "malformed run2d strings (N<5) are only required to raise, not to raise ValueError",
+    'non-ASCII text (Unicode digits and Unicode white space, which int() and \\d accept) and NUL characters in ID / run2d strings are '
+    'outside the string model; digit strings longer than the interpreter limit for int() (4300) likewise',
+    'the typed (storage-type) theorems cover the all-array calling convention of the packers and int64/uint64 ID arrays of the unwrappers; '
+    'Python-int scalars go through the unbounded model (np.array([int]) is exact or object-typed)',
 ]
 
 OBJ_RANGES = [(0, 15), (0, 2047), (0, 65535), (1, 6), (0, 1), (0, 4095), (0, 65535)]   # sky rerun run camcol ff field objnum
@@ -35,6 +47,17 @@ def translate(ctx):
         info['changed'] = C.write_if_changed(path, text)
     else:
         info['restored_committed_file'] = C.restore_generated('coq/Generated/SdssIds.v')
+        try:
+            stale = 'unwrap_objid_record' not in open(path).read()
+        except OSError:
+            stale = True
+        if stale and os.path.realpath(C.REPO) != '/repo':
+            # the committed file predates the definitions the development now needs: use the model of the reference
+            # checkout instead (same role: a model that is NOT derived from the tree under test)
+            ref_text, ref_info = T.generate('/repo')
+            if ref_text is not None:
+                C.write_if_changed(path, ref_text)
+                info['restored_from_reference_tree'] = True
         info['note'] = 'source shape not recognised; the committed Generated/SdssIds.v is kept and the correspondence run alone ties model to code'
     return {'SdssIds': info}
 
@@ -330,6 +353,164 @@ def gen_calls(ctx):
     return calls
 
 
+WS = [' ', '\t', '\n', '\r', '\x0b', '\x0c']
+
+
+def decorate(rng, digits):
+    """A spelling int() accepts for the same number: sign, blanks, leading zeros, single underscores."""
+    t = rng.random()
+    if t < 0.3:
+        return digits
+    d = digits
+    if rng.random() < 0.3 and len(d) > 1:
+        k = rng.randrange(1, len(d))
+        d = d[:k] + '_' + d[k:]
+    if rng.random() < 0.3:
+        d = '0' * rng.randint(1, 3) + d
+    if rng.random() < 0.4:
+        d = '+' + d
+    if rng.random() < 0.5:
+        d = ''.join(rng.choice(WS) for _ in range(rng.randint(1, 2))) + d
+    if rng.random() < 0.5:
+        d = d + ''.join(rng.choice(WS) for _ in range(rng.randint(1, 2)))
+    return d
+
+
+BAD_INTS = ['', ' ', '+', '-', '+-1', '1__0', '_1', '1_', '1 2', '12a', 'a12', '0x10', '1.0', '1e3', '+ 1', '1+', '1_ 0', '--1',
+            '1\t_0', 'v5_7_0']
+
+
+def gen_xcalls(ctx):
+    """Round-5 families: decimal-string IDs, run2d strings, defaults/broadcasting of sdss_objid."""
+    rng = ctx.rng
+    calls = []
+    # --- IDs as arbitrary strings, one per array, str and bytes arrays
+    for kind, top in (('unobjstr', 63), ('unspecstr', 64)):
+        vals = [0, 1, 2 ** 63 - 1, 2 ** 63, 2 ** 64 - 1, 2 ** 64, 2 ** 64 + 1, 2 ** 65 + 12345, 10 ** 19, 10 ** 20 - 1]
+        vals += [rng.getrandbits(top) for _ in range(ctx.n(40, 600))]
+        vals += [rng.getrandbits(64) | (1 << 63) for _ in range(ctx.n(15, 200))]
+        vals += [rng.getrandbits(rng.randint(1, 70)) for _ in range(ctx.n(15, 200))]
+        for v in vals:
+            calls.append((kind + '-decimal', {'f': kind, 's': decorate(rng, str(v)), 'bytes': rng.random() < 0.35}))
+        for v in [1, 2 ** 63, rng.getrandbits(40)]:
+            calls.append((kind + '-negative', {'f': kind, 's': '-' + decorate(rng, str(v)).strip().lstrip('+'), 'bytes': rng.random() < 0.35}))
+        calls.append((kind + '-negative', {'f': kind, 's': '-0', 'bytes': False}))
+        for b in BAD_INTS:
+            calls.append((kind + '-malformed', {'f': kind, 's': b, 'bytes': rng.random() < 0.35}))
+    # --- run2d strings of sdss_specobjid
+    def sp(s, tag):
+        v = rand_in(rng, SPEC_RANGES)
+        calls.append((tag, {'f': 'specstr', 'p': v[0], 'fb': v[1], 'm': v[2] + 50000, 's': s}))
+    for N in (0, 4, 5, 6, 7, 15, 10 ** 21):
+        for M in (0, 7, 63, 64, 99, 100, 101, 163, 10 ** 4):
+            for P in (0, 83, 84, 99, 100, 9999):
+                if N in (5, 6) or rng.random() < 0.25:
+                    sp('v%d_%d_%d' % (N, M, P), 'specstr-tag')
+    for k in range(ctx.n(60, 1500)):
+        r = rng.randrange(0, 2 ** 14)
+        t = 'v%d_%d_%d' % (r // 10000 + 5, (r % 10000) // 100, r % 100)
+        u = rng.random()
+        if u < 0.35:
+            sp(t, 'specstr-tag-canonical')
+        elif u < 0.5:
+            sp(t + rng.choice(['x', ' ', '\n', '_1', '.0', '_', 'v5_7_0', '0x']), 'specstr-tag-trailing-text')
+        elif u < 0.6:
+            sp(rng.choice([' ', 'x', 'V', 'vv', '+', '-']) + t[rng.choice([0, 1]):], 'specstr-tag-leading-text')
+        elif u < 0.75:
+            a_, b_, c_ = t[1:].split('_')
+            sp('v' + '0' * rng.randint(0, 2) + a_ + '_' + '0' * rng.randint(0, 2) + b_ + '_' + '0' * rng.randint(0, 2) + c_,
+               'specstr-tag-leading-zeros')
+        elif u < 0.85:
+            sp(rng.choice([t.replace('_', '__', 1), t.replace('_', '-'), t[:-len(t.split('_')[-1])], t.rsplit('_', 1)[0],
+                           'v', 'v_', 'v5', 'v5_', 'v_7_0', 'v5__0', t.replace('v', 'v-'), t.replace('_', '_-', 1), t.upper()]),
+               'specstr-tag-malformed')
+        else:
+            sp(decorate(rng, str(rng.choice([r, r, 2 ** 14 - 1, 2 ** 14, 2 ** 14 + r, 10 ** 25 + r]))), 'specstr-decimal')
+    for b in BAD_INTS + ['-1', '-0', '1_6_3_8_3', '16_384']:
+        sp(b, 'specstr-malformed')
+    # --- defaults and broadcasting of sdss_objid: explicit scalars equal / not equal to the defaults, n rows
+    for k in range(ctx.n(60, 800)):
+        n = rng.randint(1, 4)
+        rows = [rand_in(rng, OBJ_RANGES) for _ in range(n)]
+        cols = list(zip(*rows))
+        args = {'run': a(cols[2]), 'camcol': a(cols[3]), 'field': a(cols[5]), 'objnum': a(cols[6])}
+        if n == 1 and rng.random() < 0.5:
+            args = {k_: s(v['a'][0]) for k_, v in args.items()}
+        for key, dv, col in (('rerun', 301, cols[1]), ('skyversion', 2, cols[0]), ('firstfield', 0, cols[4])):
+            u = rng.random()
+            if u < 0.3:
+                args[key] = None
+            elif u < 0.55:
+                args[key] = s(dv)
+            elif u < 0.7:
+                args[key] = s(rng.choice([dv + 1, 0, 1, col[0]]))
+            elif u < 0.8:
+                args[key] = a([dv] * n)
+            else:
+                args[key] = a(col)
+        calls.append(('objid-default-handling', {'f': 'objid', 'args': args}))
+    return calls
+
+
+def str_lit(text):
+    return C.coq_list(['%d' % ord(ch) for ch in text])
+
+
+def xres_term(r):
+    if 'ok' in r:
+        return '(XRows %s)' % C.coq_list([C.zlit(v) for v in r['ok'][0]])
+    return 'XValueError' if r.get('err') == 'ValueError' else 'XOther'
+
+
+def xcase_terms(calls, results):
+    """round-5 cases (evaluator run_xcases) -> list of (call index, sub index, coq term)"""
+    terms = []
+    for ci, ((tag, c), r) in enumerate(zip(calls, results)):
+        f = c['f']
+        if f == 'objid':
+            A = c['args']
+            terms.append((ci, 0, '(XObjidCall %s %s %s %s %s %s %s %s)' % (
+                arg_term(A['run']), arg_term(A['camcol']), arg_term(A['field']), arg_term(A['objnum']),
+                C.optlit(A.get('rerun'), arg_term), C.optlit(A.get('skyversion'), arg_term),
+                C.optlit(A.get('firstfield'), arg_term), res_term(r))))
+        elif f == 'specstr':
+            terms.append((ci, 0, '(XSpecStr %s %s %s %s %s)' % (C.zlit(c['p']), C.zlit(c['fb']), C.zlit(c['m']), str_lit(c['s']), res_term(r))))
+        elif f == 'unobjstr':
+            terms.append((ci, 0, '(XUnObjStr %s %s)' % (str_lit(c['s']), xres_term(r))))
+        elif f == 'unspecstr':
+            terms.append((ci, 0, '(XUnSpecStr %s %s)' % (str_lit(c['s']), xres_term(r))))
+        elif f == 'unobj' and 'ok' in r:
+            for j, (i_, row) in enumerate(zip(c['ids'], r['ok'])):
+                terms.append((ci, j, '(XUnObjTyped %s %s)' % (C.zlit(i_), C.coq_list([C.zlit(v) for v in row]))))
+        elif f == 'unspec' and 'ok' in r and 'tags' in r:
+            for j, (i_, row, tg) in enumerate(zip(c['ids'], r['ok'], r['tags'])):
+                if len(row) == 8 and all(ord(ch) < 256 for ch in tg):
+                    five = row[:4] + row[7:]
+                    terms.append((ci, j, '(XUnSpecTyped %s %s %s)' % (C.zlit(i_), C.coq_list([C.zlit(v) for v in five]), str_lit(tg))))
+    return terms
+
+
+DOC_DTYPES = {
+    'unobj': {'record': [[n, '<i4'] for n in ('skyversion', 'rerun', 'run', 'camcol', 'firstfield', 'frame', 'id')]},
+    'unspec': {'integer': [[n, '<i4'] for n in ('plate', 'fiber', 'mjd', 'run2d', 'line')],
+               'string': [['plate', '<i4'], ['fiber', '<i4'], ['mjd', '<i4'], ['run2d', '<U8'], ['line', '<i4']],
+               'index': [[n, '<i4'] for n in ('plate', 'fiber', 'mjd', 'run2d', 'index')]},
+}
+
+
+def generated_dtypes(info):
+    """What the translator read from the source, in the form numpy reports (little-endian machine)."""
+    if not info or not info.get('recognised'):
+        return None
+    def norm(lst):
+        return [[n, '<' + t] for n, t in lst]
+    li = info['unwrap_spec_line_names']
+    integer = norm(info['unwrap_spec_dtype_integer'])
+    return {'unobj': {'record': norm(info['unwrap_objid_dtype'])},
+            'unspec': {'integer': integer, 'string': norm(info['unwrap_spec_dtype_string']),
+                       'index': [[li[1] if n == li[0] else n, t] for n, t in integer]}}
+
+
 def case_terms(calls, results, default_sky):
     """-> list of (call index, sub index, coq term)"""
     terms = []
@@ -384,6 +565,10 @@ HEADER_TYPED = '''From Coq Require Import ZArith List. Import ListNotations.
 From PV Require Import Lib.NumpyInt C06.Model C06.Typed. Open Scope Z_scope.'''
 
 
+HEADER_X = '''From Coq Require Import ZArith List. Import ListNotations.
+From PV Require Import Lib.NumpyInt C06.Strings C06.Model C06.Typed C06.Unwrap. Open Scope Z_scope.'''
+
+
 def signature(tag, c, r, verdict):
     kind = c['f']
     conv = ''
@@ -399,6 +584,21 @@ def signature(tag, c, r, verdict):
         if dts:
             conv += ('' if not conv else ',') + 'array-types-other-than-int64'
     out = 'ok' if ('ok' in r or 'sum' in r) else r.get('err', '?')
+    if kind == 'specstr':
+        # classify by the documented meaning of the string, not by the string
+        import re as _re
+        st = c['s']
+        m = _re.fullmatch(r'v(\d+)_(\d+)_(\d+)', st, _re.ASCII)
+        if m and not (5 <= int(m.group(1)) <= 6 and int(m.group(2)) <= 99 and int(m.group(3)) <= 99):
+            return 'C06:spec:run2d-tag-out-of-documented-range:%s' % ('property' if verdict >= 2 else 'model')
+        if m:
+            conv = 'run2d-tag'
+        elif st.startswith('v'):
+            return 'C06:spec:run2d-tag-malformed:impl=%s:%s' % (out, 'property' if verdict >= 2 else 'model')
+        else:
+            conv = 'run2d-decimal-string'
+    if kind in ('unobjstr', 'unspecstr'):
+        conv = 'array-kind=' + ('S' if c.get('bytes') else 'U')
     return 'C06:%s:%s:impl=%s:%s' % (kind, conv, out, 'property' if verdict >= 2 else 'model')
 
 
@@ -419,10 +619,12 @@ def dtype_dist(calls):
 
 
 def correspond(ctx, proof_ok=True):
-    ok, log = C.coq_make(['C06/Model.vo', 'C06/Typed.vo'])
+    ok, log = C.coq_make(['C06/Model.vo', 'C06/Typed.vo', 'C06/Unwrap.vo'])
     if not ok:
-        raise RuntimeError('C06/Model.v / C06/Typed.v do not build:\n' + log[-2000:])
+        raise RuntimeError('C06/Model.v / C06/Typed.v / C06/Unwrap.v do not build:\n' + log[-2000:])
     calls = gen_calls(ctx)
+    n_old = len(calls)
+    calls += gen_xcalls(ctx)
     # run implementation in a few parallel batches
     nb = 8
     batches = [calls[i::nb] for i in range(nb)]
@@ -434,6 +636,7 @@ def correspond(ctx, proof_ok=True):
     default_sky = outs[0]['default_skyversion']
     ctx.coverage['pydl_file'] = outs[0]['pydl_file']
     terms = case_terms(calls, results, default_sky)
+    xterms = xcase_terms(calls, results)
     cc = C.CoqCases(ctx.work, HEADER, 'run_cases', shard=250)
     heavy = [k for k, (_, _, t) in enumerate(terms) if t.startswith('(CSweep')]
     typed = [k for k, (_, _, t) in enumerate(terms) if t.startswith('(CT')]
@@ -447,13 +650,33 @@ def correspond(ctx, proof_ok=True):
     cc.shard = 1   # one sweep per coqc process
     for k, v in zip(heavy, cc.run([terms[k][2] for k in heavy], tag='sweeps')):
         verdicts[k] = v
-    ctx.coverage['coq_eval_s'] = round(cc.coq_seconds + ct.coq_seconds, 1)
+    cx = C.CoqCases(ctx.work, HEADER_X, 'run_xcases', shard=250)
+    xverdicts = cx.run([t for _, _, t in xterms], tag='xcases')
+    ctx.coverage['coq_eval_s'] = round(cc.coq_seconds + ct.coq_seconds + cx.coq_seconds, 1)
+    ctx.coverage['coq_eval_parts_s'] = {'cases+sweeps': round(cc.coq_seconds, 1), 'typed': round(ct.coq_seconds, 1), 'round5': round(cx.coq_seconds, 1)}
+    terms = terms + xterms
+    verdicts = verdicts + xverdicts
 
     # direct checks on the real code (behavioural statement of the property)
     direct_bad = []
     for ci, ((tag, c), r) in enumerate(zip(calls, results)):
         if c['f'] in ('sweepobj', 'sweepspec') and 'sum' in r and not r['roundtrip']:
             direct_bad.append((ci, 'unwrap(pack(fields)) != fields somewhere in sweep' + (': %s' % r['roundtrip_counterexample'] if r.get('roundtrip_counterexample') else '')))
+    # storage types: result dtype of the packers, record dtypes of the unwrappers (documented, and as read from the source)
+    tinfo = T.generate(C.REPO)[1]
+    gen_dt = generated_dtypes(tinfo)
+    dtype_bad = {}
+    for ci, ((tag, c), r) in enumerate(zip(calls, results)):
+        f = c['f']
+        want = {'objid': 'int64', 'tobj': 'int64', 'spec': 'uint64', 'tspec': 'uint64', 'specstr': 'uint64'}.get(f)
+        if want and 'ok' in r and r.get('dtype') != want:
+            dtype_bad.setdefault(('result-dtype', f, r.get('dtype'), True), ci)
+        if f in ('unobj', 'unspec') and 'dtypes' in r:
+            for mode, got in r['dtypes'].items():
+                if got != DOC_DTYPES[f][mode]:
+                    dtype_bad.setdefault(('record-dtype', f, mode, True), ci)
+                if gen_dt is not None and got != gen_dt[f][mode]:
+                    dtype_bad.setdefault(('record-dtype-vs-generated', f, mode, False), ci)
     dist = {}
     swept = 0
     for (tag, c), r in zip(calls, results):
@@ -471,6 +694,9 @@ def correspond(ctx, proof_ok=True):
         'cases_by_kind_and_outcome': dist,
         'swept_values': swept,
         'array_argument_types': dtype_dist(calls),
+        'round5_cases': {'xcases': len(xterms), 'families': {k: v for k, v in dist.items() if k.split(':')[0] in
+                                                             ('unobjstr', 'unspecstr', 'specstr')}},
+        'generated_glue': {k: tinfo.get(k) for k in ('objid_glue', 'run2d_tag', 'unwrap_objid_dtype', 'unwrap_spec_dtype_string')},
         'model_disagreements': sum(1 for b in bad if b[3] & 1),
         'spec_violations': sum(1 for b in bad if b[3] & 2),
         'samples': [{'call': calls[ci][1], 'impl': results[ci], 'coq_case': t[:300]} for ci, j, t in terms[:3]] +
@@ -497,9 +723,25 @@ def correspond(ctx, proof_ok=True):
         if r.get('inputs_modified') or 'repeat_differs' in r:
             direct_bad.append((ci, 'array call modifies its arguments / a second call with the same arrays differs (%s; repeat: %s)'
                                % (r.get('inputs_modified'), r.get('repeat_differs'))))
+    for (what, f, detail, prop), ci in dtype_bad.items():
+        tag, c = calls[ci]
+        r = results[ci]
+        if prop:
+            ctx.violation('C06:%s:%s:%s' % (f, what, detail),
+                          'storage type differs from the documented one (%s of %s: %s)' % (what, f, r.get('dtype') or r.get('dtypes')),
+                          {'kind': 'failing-input', 'call': c, 'impl_result': r, 'documented': want_doc(f)}, True)
+        else:
+            ctx.violation('C06:%s:%s:%s' % (f, what, detail),
+                          'record dtype reported by the implementation differs from the one the translator read from the source',
+                          {'kind': 'broken-correspondence', 'item': 'Generated.SdssIds.unwrap_*_record', 'call': c, 'impl_result': r,
+                           'generated': gen_dt[f]}, False)
     for ci, why in direct_bad:
         tag, c = calls[ci]
         ctx.violation('C06:%s:%s' % (c['f'], 'inputs-modified' if 'modifies' in why else 'roundtrip'), why, {'kind': 'failing-input', 'call': c, 'impl_result': results[ci]}, True)
+
+
+def want_doc(f):
+    return DOC_DTYPES.get(f) or {'objid': 'int64', 'tobj': 'int64'}.get(f, 'uint64')
 
 
 def replay(ctx, rep):
